@@ -25,9 +25,18 @@ type Path []Item
 const Limit = 20000
 
 type enum struct {
-	out   []Path
-	err   error
-	limit int
+	out      []Path
+	err      error
+	limit    int
+	loopBody bool
+}
+
+// EnumerateLoop lists every structured path through one iteration of a loop
+// body: an unlabelled continue ends the path like falling off the end.
+func EnumerateLoop(body *ast.BlockStmt) ([]Path, error) {
+	e := &enum{limit: Limit, loopBody: true}
+	e.walk(body.List, nil, func(p Path) { e.emit(p) })
+	return e.out, e.err
 }
 
 // Enumerate lists every structured path through body.
@@ -97,6 +106,10 @@ func (e *enum) walk(stmts []ast.Stmt, cur Path, k func(Path)) {
 		}
 		e.switchBody(s, s.Body, p, next)
 	case *ast.BranchStmt:
+		if s.Tok == token.CONTINUE && s.Label == nil && e.loopBody {
+			e.emit(cur)
+			return
+		}
 		if s.Tok == token.BREAK && s.Label == nil {
 			// break inside a switch clause: handled by caller of clause bodies
 			// through the sentinel below
